@@ -175,6 +175,42 @@ Definition judge_C06 (c : icase) : bool * bool * bool :=
   | None => (agree, true, false)
   end.
 
+(* C06, "the exact portion": the tree the interpreter (and the model) works on comes from the
+   implementation's own parser; the portions it carries are compared, by value, with the portions the
+   generator wrote in the text (None: a variable or `remaining`) *)
+Record c06case := mk_c06case { c6_case : icase; c6_portions : list (option (Z * Z)) }.
+
+Fixpoint portions_match (al : list allot) (ex : list (option (Z * Z))) : bool :=
+  match al, ex with
+  | [], [] => true
+  | a :: al', e :: ex' =>
+      match a, e with
+      | ARatio _ n d, Some (n', d') => (n * d' =? n' * d) && negb (d =? 0)
+      | ARatio _ _ _, None => false
+      | _, Some _ => false
+      | _, None => true
+      end && portions_match al' ex'
+  | _, _ => false
+  end.
+
+Definition portions_as_written (c : icase) (ex : list (option (Z * Z))) : bool :=
+  match ex with
+  | [] => true
+  | _ =>
+      match split_last (p_stmts (ic_prog c)) with
+      | Some (_, StSend _ _ src dst) =>
+          match dst, src with
+          | DAllot _ items, _ => portions_match (map (fun it : range * allot * kod => snd (fst it)) items) ex
+          | _, SAllot _ items => portions_match (map (fun it : range * allot * source => snd (fst it)) items) ex
+          | _, _ => false
+          end
+      | _ => false
+      end
+  end.
+
+Definition judge_C06w (cc : c06case) : bool * bool * bool :=
+  let '(a, p, n) := judge_C06 (c6_case cc) in (a, p && portions_as_written (c6_case cc) (c6_portions cc), n).
+
 (* ---------------- C03 ---------------- *)
 Definition prop_C03 (es : esend) (src : esrc) (d : edest) (n : Z) (o : observed) : bool :=
   err_result_empty o &&
@@ -515,6 +551,52 @@ Definition prop_C09 (c : splitcase) : bool :=
   | _, _, _ => false
   end.
 
+(* "metadata set by later statements overrides earlier values key by key": the metadata of a run that
+   succeeded is the fold of its set_tx_meta / set_account_meta statements in order - the last write
+   of a key wins, whatever was read from the store before *)
+Fixpoint last_writes (vs : env) (ss : list stmt) (tx : list (string * value)) (am : metadata)
+  : option (list (string * value) * metadata) :=
+  match ss with
+  | [] => Some (tx, am)
+  | StFnCall f :: ss' =>
+      match ok_opt (eval_exprs vs (fc_args f)) with
+      | Some args =>
+          if String.eqb (fc_caller f) "set_tx_meta" then
+            match args with
+            | [k; v] => match ok_opt (expect_string k) with Some key => last_writes vs ss' (aset key v tx) am | None => None end
+            | _ => None
+            end
+          else if String.eqb (fc_caller f) "set_account_meta" then
+            match args with
+            | [a; k; v] =>
+                match ok_opt (expect_account a), ok_opt (expect_string k) with
+                | Some acc, Some key =>
+                    let old := match alookup acc am with Some m => m | None => [] end in
+                    last_writes vs ss' tx (aset acc (aset key (value_string v) old) am)
+                | _, _ => None
+                end
+            | _ => None
+            end
+          else None
+      | None => None
+      end
+  | _ :: ss' => last_writes vs ss' tx am
+  end.
+
+Definition last_write_wins (c : splitcase) : bool :=
+  match sc_whole c with
+  | ObsOk _ tw mw _ =>
+      match prepare (sc_prog c) (sc_vars c) (mk_store SKExact (sc_bal c) (sc_meta c) None) (sc_flag c) with
+      | Ok (vs, _) =>
+          match last_writes vs (p_stmts (sc_prog c)) [] [] with
+          | Some (tx, am) => amap_eqb value_eqb tw tx && metadata_eqb mw am
+          | None => true
+          end
+      | _ => true
+      end
+  | _ => true
+  end.
+
 Definition judge_C09 (c : splitcase) : bool * bool * bool :=
   let sb := mk_store SKExact (sc_bal c) (sc_meta c) None in
   let whole := run_program (sc_prog c) (sc_vars c) sb (sc_flag c) in
@@ -540,7 +622,7 @@ Definition judge_C09 (c : splitcase) : bool * bool * bool :=
         | _ => true      (* the whole script fails before its first statement: nothing to compare *)
         end
     end in
-  (agree_whole && agree_bal, prop_C09 c,
+  (agree_whole && agree_bal, prop_C09 c && last_write_wins c,
    match sc_whole c with ObsOk ps _ _ _ => negb (Nat.eqb (List.length ps) 0) | _ => false end).
 
 (* ======================= C10: store independence ======================= *)
